@@ -16,6 +16,7 @@ import (
 	"github.com/getlantern/bytemap"
 	"github.com/getlantern/goexpr"
 	"github.com/getlantern/zenodb"
+	"github.com/getlantern/zenodb/common"
 	"github.com/getlantern/zenodb/core"
 	"github.com/getlantern/zenodb/sql"
 )
@@ -346,18 +347,30 @@ type obsRow struct {
 }
 
 func runQuery(db *zenodb.DB, sqlStr string, mem bool) (fields []string, rows []obsRow, err error) {
+	fields, rows, _, err = runQueryStats(db, sqlStr, mem)
+	return
+}
+
+// runQueryStats also returns the query statistics (partitions asked / answered).
+func runQueryStats(db *zenodb.DB, sqlStr string, mem bool) (fields []string, rows []obsRow, stats *common.QueryStats, err error) {
 	src, err := db.Query(sqlStr, false, nil, mem)
 	if err != nil {
-		return nil, nil, err
+		return nil, nil, nil, err
 	}
-	_, err = src.Iterate(context.Background(), func(fs core.Fields) error {
+	var md interface{}
+	defer func() {
+		if qs, ok := md.(*common.QueryStats); ok {
+			stats = qs
+		}
+	}()
+	md, err = src.Iterate(context.Background(), func(fs core.Fields) error {
 		fields = fs.Names()
 		return nil
 	}, func(r *core.FlatRow) (bool, error) {
 		rows = append(rows, obsRow{TS: time.Unix(0, r.TS), Key: r.Key.AsMap(), Vals: append([]float64(nil), r.Values...)})
 		return true, nil
 	})
-	return fields, rows, err
+	return fields, rows, nil, err
 }
 
 func galKey(m map[string]interface{}) string {
